@@ -3,7 +3,6 @@
 package wdsim
 
 import (
-	"bytes"
 	"context"
 	"fmt"
 	"io"
@@ -102,11 +101,29 @@ func (s *concSeam) owner(p string) *ctask {
 			return t
 		}
 	}
+	// members of the shared collection are owned by name: /shared/t<i>-...
+	const sh = "/shared/t"
+	if strings.HasPrefix(rel, sh) && len(rel) > len(sh)+1 && rel[len(sh)] >= '0' && rel[len(sh)] <= '7' && rel[len(sh)+1] == '-' {
+		if t := s.tasks[rel[len(sh)]-'0']; t != nil {
+			return t
+		}
+	}
 	return s.shared
 }
 
+// ownerOf finds the task a call belongs to from either of its paths.
+func (s *concSeam) ownerOf(c *simos.Call) *ctask {
+	if t := s.owner(c.Path); t != nil {
+		return t
+	}
+	if c.Path2 != "" {
+		return s.owner(c.Path2)
+	}
+	return nil
+}
+
 func (s *concSeam) Before(c *simos.Call) *simos.Inject {
-	t := s.owner(c.Path)
+	t := s.ownerOf(c)
 	if t == nil {
 		return nil
 	}
@@ -123,7 +140,18 @@ func (s *concSeam) Before(c *simos.Call) *simos.Inject {
 }
 
 func (s *concSeam) After(c *simos.Call, err error) {
-	t := s.owner(c.Path)
+	// modification times come from the fake clock whoever made the call (an
+	// upload's temporary file carries no task name)
+	if c.Writable {
+		switch c.Op {
+		case "open", "write", "close", "truncate", "mkdir":
+			if err == nil || c.Op == "write" {
+				now := time.Now()
+				realos.Chtimes(c.Path, now, now)
+			}
+		}
+	}
+	t := s.ownerOf(c)
 	if t == nil {
 		return
 	}
@@ -136,16 +164,6 @@ func (s *concSeam) After(c *simos.Call, err error) {
 		es = strings.ReplaceAll(err.Error(), s.sandbox, "$SB")
 	}
 	g.logf("disk %s %s %s n=%d: %s", c.Fn, strings.TrimPrefix(c.Path, s.sandbox), strings.TrimPrefix(c.Path2, s.sandbox), c.N, es)
-	if !c.Writable {
-		return
-	}
-	switch c.Op {
-	case "open", "write", "close", "truncate", "mkdir":
-		if err == nil || c.Op == "write" {
-			now := time.Now()
-			realos.Chtimes(c.Path, now, now)
-		}
-	}
 }
 
 // calibrationWord is touched, unsynchronised, once per request when a plan
@@ -237,7 +255,7 @@ func (tr *concTransport) RoundTrip(creq *http.Request) (*http.Response, error) {
 	return &http.Response{
 		Status: fmt.Sprintf("%d %s", resp.Status, http.StatusText(resp.Status)), StatusCode: resp.Status,
 		Proto: "HTTP/1.1", ProtoMajor: 1, ProtoMinor: 1, Header: resp.H.Clone(),
-		Body: io.NopCloser(bytes.NewReader(resp.Body)), ContentLength: int64(len(resp.Body)), Request: creq,
+		Body: framedBody(resp.H, resp.Body, sreq.Method, resp.Status), ContentLength: -1, Request: creq,
 	}, nil
 }
 
@@ -361,6 +379,7 @@ func runTasks(plan *Plan, tasks []TaskPlan, base string, log *Log) (*concResult,
 	}
 
 	// set-up, straight on the store
+	realos.MkdirAll(realfp.Join(w.Root, "shared"), 0o755)
 	for _, tp := range tasks {
 		realos.MkdirAll(realfp.Join(w.Root, fmt.Sprintf("t%d", tp.ID)), 0o755)
 		for _, op := range tp.Setup {
@@ -410,7 +429,7 @@ func runTasks(plan *Plan, tasks []TaskPlan, base string, log *Log) (*concResult,
 		sub := map[string]model.Entry{}
 		prefix := fmt.Sprintf("/t%d", tasks[i].ID)
 		for p, e := range Snapshot(w.Root) {
-			if p == prefix || model.IsAncestor(prefix, p) {
+			if p == prefix || model.IsAncestor(prefix, p) || strings.HasPrefix(p, "/shared"+prefix+"-") {
 				sub[p] = e
 			}
 		}
@@ -551,6 +570,7 @@ func runTask(tp *TaskPlan, t *ctask, client *webdav.Client, tr *concTransport) {
 
 // ExecuteConc runs a concurrent plan, then every task alone, and compares.
 func ExecuteConc(t *testing.T, plan *Plan, opts Opts) *RunResult {
+	planHost = "dav.test"
 	res := &RunResult{Log: &Log{}, Stats: NewStats()}
 	res.Stats.Runs = 1
 	var conc *concResult
